@@ -7,7 +7,7 @@
                     fixed short history <<1, 0>> (restart points included), coupling on with cap 1
 *)
 EXTENDS Operator
-CONSTANTS MaxCyc, MaxBurn, MaxCap, MaxStack, MaxLevel, Families
+CONSTANTS MaxCyc, MaxBurn, MaxCap, MaxStack, MaxLevel, Families, EnvD
 
 Cfg(steps, sc, sn, ifs, dcyc, tight, cap, skip) ==
     [steps |-> steps, sc |-> sc, sn |-> sn, ifs |-> ifs, dcyc |-> dcyc, tight |-> tight, cap |-> cap, skip |-> skip]
@@ -22,17 +22,34 @@ LStack == <<Iface(TRUE, FALSE, TRUE, FALSE, TRUE, TRUE), Iface(TRUE, FALSE, FALS
 ConfigsL == UNION {UNION {{Cfg(h, st[1], st[2], LStack, 1, cp.tight, cp.cap, cp.skip) : cp \in Couplings(Len(h))}
                           : st \in Starts(h)} : h \in Hists(MaxCyc, MaxBurn)}
 
-\* position p of a D stack: the four dispatch flags are free; the first interface is coupled and halting
-DIfaces(p) == {Iface(en, bf, rev, dfr, p = 1, p = 1) : en \in BOOLEAN, bf \in BOOLEAN, rev \in BOOLEAN, dfr \in BOOLEAN}
-DStacks(m) == {s \in [1..m -> UNION {DIfaces(p) : p \in 1..m}] : \A p \in 1..m : s[p] \in DIfaces(p)}
+\* position p of a D stack: the four dispatch flags are free; the first interface is coupled and halting when EnvD (exhaustive
+\* configs; the emission configs switch it off so that a D configuration has exactly one run)
+DIfaces(p) == {Iface(en, bf, rev, dfr, EnvD /\ p = 1, EnvD /\ p = 1) : en \in BOOLEAN, bf \in BOOLEAN, rev \in BOOLEAN, dfr \in BOOLEAN}
+DStacks(m) == CASE m = 1 -> {<<a>> : a \in DIfaces(1)}
+                [] m = 2 -> {<<a, b>> : a \in DIfaces(1), b \in DIfaces(2)}
+                [] m = 3 -> {<<a, b, c>> : a \in DIfaces(1), b \in DIfaces(2), c \in DIfaces(3)}
 DHist == <<1, 0>>
-ConfigsD == UNION {UNION {{Cfg(DHist, st[1], st[2], s, d, TRUE, 1, NoSkip(2)) : s \in DStacks(m), d \in 0..2}
-                          : st \in {<<0, 0>>, <<0, 1>>, <<1, 0>>}} : m \in 1..MaxStack}
+\* stacks of three are explored from the start of the run with deferral cycle 1 only (4096 stacks)
+DStarts(m) == IF m <= 2 THEN {<<0, 0>>, <<0, 1>>, <<1, 0>>} ELSE {<<0, 0>>}
+DDefer(m)  == IF m <= 2 THEN 0..2 ELSE {1}
+ConfigsD == UNION {UNION {{Cfg(DHist, st[1], st[2], s, d, TRUE, 1, NoSkip(2)) : s \in DStacks(m), d \in DDefer(m)}
+                          : st \in DStarts(m)} : m \in 1..MaxStack}
 
 McConfigs == (IF "L" \in Families THEN ConfigsL ELSE {}) \cup (IF "D" \in Families THEN ConfigsD ELSE {})
 
 Bound == TLCGet("level") <= MaxLevel
 View == viewvars
 \* one JSON line per completed run: the configuration and the complete call log (emission configs; log is part of the state)
+\* emission only: the convergence reports follow a fixed pseudo-random pattern of (cycle, node, iteration, interface) salted by the
+\* configuration, so that a configuration has a handful of runs instead of 3^nodes (halt answers stay free); the full
+\* nondeterminism is explored by the exhaustive configs and, on the real code, by the random trace driver
+Salt == cfg.sc + cfg.sn + cfg.cap + Len(cfg.steps)
+EmitEnv == /\ (Len(log') > Len(log) /\ lastc'.e = "CPL" /\ cfg.ifs[lastc'.i].cpl)
+                  => (lastc'.cv <=> ((cycle + node + iter + lastc'.i + Salt) % 2 = 0))
+           \* meaningless return values (hooks other than BOC) of halting interfaces: True on about a third of the BOL / EN / EOC /
+           \* EOL calls, never at Coupled (there the short-circuit of the real _interactAll would also change which couplers move
+           \* and hence the rest of the schedule, and a divergence could no longer be attributed to its cause)
+           /\ (Len(log') > Len(log) /\ lastc'.e \notin {"BOC", "DBW"} /\ cfg.ifs[lastc'.i].hlt)
+                  => (lastc'.ret <=> (lastc'.e # "CPL" /\ (cycle + node + Salt) % 3 = 0))
 EmitRun == pc = "Done" => PrintT(ToJson([cfg |-> cfg, log |-> log]))
 =====================================================================================================
